@@ -39,6 +39,8 @@ pub enum Inj {
     /// the target itself sends / closes / gets a retransmit tick
     Send { len: u32 },
     Close,
+    /// (verification hook) the write sequence counter is preset — the next records are sealed under these numbers
+    SetSeq(u64),
 }
 
 #[derive(Clone, Debug, PartialEq)]
@@ -58,6 +60,7 @@ impl Inj {
             Inj::Garbage { n, first } => format!("gb:{n}:{first}"),
             Inj::Send { len } => format!("sd:{len}"),
             Inj::Close => "cl".into(),
+            Inj::SetSeq(n) => format!("ws:{n}"),
         }
     }
     pub fn parse(s: &str) -> Inj {
@@ -90,6 +93,7 @@ impl Inj {
             "gb" => Inj::Garbage { n: n(1) as u16, first: n(2) as u8 },
             "sd" => Inj::Send { len: n(1) as u32 },
             "cl" => Inj::Close,
+            "ws" => Inj::SetSeq(n(1)),
             x => panic!("bad injection {x}"),
         }
     }
@@ -208,7 +212,7 @@ async fn materialise(inj: &Inj, s: &Sess, peer: &mut Endpoint) -> Vec<u8> {
             if !v.is_empty() { v[0] = *first; }
             v
         }
-        Inj::Send { .. } | Inj::Close => vec![],
+        Inj::Send { .. } | Inj::Close | Inj::SetSeq(_) => vec![],
     }
 }
 
@@ -280,6 +284,11 @@ pub async fn run_session(target_is_client: bool, script: &[(Inj, bool)]) -> Opti
                 if accepted { judge_sent(&sent, &data, &sess, &mut sent_nonces, &mut fails, &inj.text()); }
                 else if !sent.is_empty() { fails.push(("send:records-emitted-by-rejected-send".into(), inj.text())); }
                 Obs { letter: target.letter(), state: target.state_text(), alive: !target.done, delivered: target.drain_app(), sent }
+            }
+            Inj::SetSeq(n) => {
+                target.dtls.verif_set_write_seq(*n);
+                input.push_str(&format!(" ws,{n}"));
+                Obs { letter: target.letter(), state: target.state_text(), alive: !target.done, delivered: target.drain_app(), sent: vec![] }
             }
             Inj::Close => {
                 target.dtls.close();
@@ -399,6 +408,9 @@ fn directed() -> Vec<Vec<(Inj, bool)>> {
                         (Inj::WrongKey { ct, epoch: ep.max(1), var: 0, which: 0 }, third)]);
         } }
     }
+    // sequence numbers far from 0 (preset by a hook): sends across 2^32 and up to the last 48-bit value, after a few ordinary ones
+    v.push(vec![(Inj::Send { len: 2401 }, false), (Inj::SetSeq((1 << 32) - 2), false), (Inj::Send { len: 5000 }, false), (Inj::Captured { len: 16, mutation: Mut::None }, false)]);
+    v.push(vec![(Inj::Send { len: 100 }, false), (Inj::SetSeq((1 << 40) + 5), false), (Inj::Send { len: 1201 }, false), (Inj::SetSeq((1 << 48) - 3), false), (Inj::Send { len: 2400 }, false)]);
     // authenticated close_notify closes; authenticated bad Finished fails; authenticated good Finished re-connects
     v.push(vec![(Inj::Sealed { ct: 21, epoch: 1, var: 0, seq: 9 }, false), (Inj::Captured { len: 16, mutation: Mut::None }, false)]);
     v.push(vec![(Inj::Sealed { ct: 22, epoch: 1, var: 0, seq: 9 }, false), (Inj::Captured { len: 16, mutation: Mut::None }, false)]);
